@@ -8,6 +8,7 @@ import KM.Gen.GoCookieUp
 import KM.Gen.GoVipOtp
 import KM.Gen.GoOkta
 import KM.Gen.GoU2f
+import KM.Gen.GoCommonOtp
 /-! # C05 — when `validateUserTOTP` says yes, on the TRANSLATED source (go2lean); see `KM/Props/C14Go.lean` -/
 namespace KM.Totp
 open KM.Go KM.GoTypes
@@ -674,3 +675,45 @@ theorem c05_go_u2f_upgrade (ext : U2fExt) (user : List Char) (authType : Nat) (i
       intro h; simp at h
 
 end KM.U2fGo
+
+/-! ## `commonTOTPPostHandler`, the whole function (`KM/Gen/GoCommonOtp.lean`), and its composition with the Okta core -/
+namespace KM.CommonOtpGo
+open KM.GoTypes KM.Go
+
+/-- the code the handler reads from the form -/
+def otpString (formOTP : List (List Char) × Bool) : List Char :=
+  if formOTP.2 then formOTP.1.headD [] else []
+
+/-- **the TOTP and Okta handlers work with the identity `checkAuth` admitted, and with nothing else** (C05), on the
+translated source of `commonTOTPPostHandler` (whole function): it returns without an error only on an unsealed server,
+for a POST, when `checkAuth` admitted the request at the required level; the name and level it hands on are that
+identity's, the code is the single `OTP` form value. -/
+theorem c05_go_common_otp (ext : CommonOtpExt) (method : List Char) (formOTP : List (List Char) × Bool) (req : Nat)
+    (u : List Char) (lvl otp : Nat)
+    (h : (KM.Gen.GoCommonOtp.commonTOTPPostHandler ext method formOTP req).1 = (u, lvl, otp, none)) :
+    ext.locked = false ∧ method = "POST".toList ∧
+    ∃ info, ext.checkAuth req = (info, none) ∧ u = info.Username ∧ lvl = info.AuthType ∧
+      ext.atoi (otpString formOTP) = (otp, none) := by
+  obtain ⟨locked, ca, pf, atoi⟩ := ext
+  obtain ⟨vals, ok⟩ := formOTP
+  unfold KM.Gen.GoCommonOtp.commonTOTPPostHandler at h
+  unfold otpString
+  dsimp only at h ⊢
+  refine ⟨?_, ?_, (ca req).1, ?_⟩ <;>
+  (cases locked <;> cases ok <;> cases pf <;>
+    simp only [Bool.false_eq_true, if_false, if_true, Option.isSome_none, Option.isSome_some] at h ⊢ <;>
+    (repeat' split at h) <;> simp_all [Prod.ext_iff])
+
+/-- **composed with the translated core of `Okta2FAuthHandler`**: whenever the real pair raises a cookie, it is the
+cookie of the user `checkAuth` admitted, and Okta confirmed the submitted code for exactly that user. -/
+theorem c05_go_okta_otp_end_to_end (cext : CommonOtpExt) (oext : OktaExt) (method : List Char)
+    (formOTP : List (List Char) × Bool) (isOkta : Bool) (u0 : List Char) (lvl0 otp : Nat) (u : List Char) (lvl : Nat)
+    (h0 : (KM.Gen.GoCommonOtp.commonTOTPPostHandler cext method formOTP 65535).1 = (u0, lvl0, otp, none))
+    (h : OktaEffect.upgrade u lvl ∈ (KM.Gen.GoOkta.oktaOtpCore oext isOkta u0 lvl0 otp).2) :
+    ∃ info, cext.checkAuth 65535 = (info, none) ∧ u = info.Username ∧ lvl = (info.AuthType ||| 128) ∧
+      oext.otp info.Username otp = (true, none) := by
+  obtain ⟨_, _, info, hca, rfl, rfl, _⟩ := c05_go_common_otp cext method formOTP 65535 u0 lvl0 otp h0
+  obtain ⟨_, rfl, rfl, hotp, _⟩ := KM.OktaGo.c05_go_okta_otp_upgrade oext isOkta _ _ otp u lvl h
+  exact ⟨info, hca, rfl, rfl, hotp⟩
+
+end KM.CommonOtpGo
